@@ -52,13 +52,18 @@ type plcase struct {
 	Topology string   `json:"topology"` // direct | routed | models
 	Strat    string   `json:"read_execution"`
 	N        int      `json:"members"`
-	Ops      []string `json:"ops"`      // p<i>:<k> device i reports value code k (onoff: state k-1; light: level 24*(k-1)); p<i>:x it fails; ok | sf: the parked Send returns nil | an error; cc: the subscriber cancels
+	Ops      []string `json:"ops"` // p<i>:<k> device i reports value code k (onoff: state k-1; light: level 24*(k-1)); p<i>:x it fails; ok | sf: the parked Send returns nil | an error; cc: the subscriber cancels
 	Procs    int      `json:"gomaxprocs"`
+	Names    []string `json:"names,omitempty"` // the member names the Group is built with = the devices' names (naming.go; distinct; direct / routed only); none: m0, m1, ...
 }
 
 func (p plcase) fn() string { return acase{Trait: p.Trait, RPC: "Pull"}.fn() }
 func (p plcase) key() string {
-	return fmt.Sprintf("%s/%s %s n=%d %s", p.Trait, p.Topology, p.Strat, p.N, dash(strings.Join(p.Ops, ",")))
+	k := fmt.Sprintf("%s/%s %s n=%d %s", p.Trait, p.Topology, p.Strat, p.N, dash(strings.Join(p.Ops, ",")))
+	if p.Names != nil {
+		k += " names=" + quoteNames(p.Names)
+	}
+	return k
 }
 
 // the strategy as the pipeline model's parameters: Execute cancels when more than `allowed` members have failed and
@@ -228,10 +233,12 @@ func runPipeline(p plcase) (o plobs) {
 		defer runtime.GOMAXPROCS(prev)
 	}
 	base := goroutineIDs()
-	names := make([]string, p.N)
+	names := defaultNames(p.N)
+	if p.Topology != "models" {
+		names = namesOr(p.Names, p.N)
+	}
 	devs := map[string]*scriptDev{}
 	for i := range names {
-		names[i] = memberName(i)
 		devs[names[i]] = &scriptDev{cmd: make(chan int, 64)}
 		devs[names[i]].state.Store(2)
 	}
@@ -546,6 +553,14 @@ func stallCases() []plcase {
 						}
 					}
 					e := endings[(si+n)%len(endings)]
+					if topo != "models" && n >= 2 {
+						// the member list is any list of strings (naming.go): the same stall with each device's name blank in turn / names that look like another device's
+						for k, names := range nameSchemes(n, false) {
+							if (k+si)%n == 0 || topo == "direct" {
+								out = append(out, plcase{Pipeline: true, Trait: tr, Topology: topo, Strat: st, N: n, Ops: append(append([]string(nil), ops...), e...), Names: names})
+							}
+						}
+					}
 					if topo == "direct" || n == 2 {
 						for _, e := range endings {
 							out = append(out, plcase{Pipeline: true, Trait: tr, Topology: topo, Strat: st, N: n, Ops: append(append([]string(nil), ops...), e...)})
@@ -603,6 +618,9 @@ func randomPipeline(r *rand.Rand) plcase {
 	default:
 		p.Topology = "models"
 	}
+	if p.Topology != "models" {
+		p.Names = randomNames(p.N, false, r)
+	}
 	for k := r.Intn(11); k > 0; k-- {
 		switch x := r.Intn(20); {
 		case x < 11 && p.N > 0:
@@ -625,7 +643,7 @@ func randomPipeline(r *rand.Rand) plcase {
 func runPipelines(f lib.Flags, res *lib.Result, drv *lib.Driver, rng *rand.Rand) {
 	tie := res.Tie("group-pull-pipeline", "K4",
 		"onoffpb.Group / lightpb.Group PullX over WrapApi(scripted devices) with a subscriber whose every Send parks until the harness answers it; x {All, Most, Any, Fast, Race, One} x 0..3 devices; "+
-			"scripts of environment actions (device i reports a value / fails, the parked Send returns nil / an error, the subscriber cancels): EVERY script of up to 2 (thorough: 3) actions for 0..2 onoff devices per strategy; the stall family (every device's lane filled: one report at the loop or held by the member closure, one inside SendMsg, one waiting; then each of 5 endings) and random scripts of up to 10 actions, every script ending with cancel + failed Send if the subscription still runs; "+
+			"scripts of environment actions (device i reports a value / fails, the parked Send returns nil / an error, the subscriber cancels): EVERY script of up to 2 (thorough: 3) actions for 0..2 onoff devices per strategy; the stall family (every device's lane filled: one report at the loop or held by the member closure, one inside SendMsg, one waiting; then each of 5 endings) and random scripts of up to 10 actions, every script ending with cancel + failed Send if the subscription still runs; the devices' NAMES (= the Group's member list) are an input the model does not have: the stall family for 2..3 devices also under each name blank in turn and names that look like another device's, half of the random direct / routed scripts under distinct odd names; "+
 			"after every action, at whole-process quiescence: per device handler waiting / inside server.Send / returned and its count of Sends that returned nil, PullX running / inside the subscriber's Send / returned, the values forwarded. "+
 			"model = the Lean pipeline model (handler - wrap stream - member closure - loop; Pipe.step), asked for EVERY point of quiescence its internal steps can reach after the same action from the states compatible with the earlier observations; the observation must be one of them, and at the end the model's count of threads left (0) must equal the census of goroutines left. non-trivial = at least one device and two actions; distinct by script")
 	mon := res.Monitor("group-pull-pipeline-contract",
